@@ -518,4 +518,32 @@ theorem sendAll_fresh : ∀ (f : Flat) (st : St) (now : Int),
       rw [hep' u dd (fun z hz => hy z (by simp [hz])), hep1,
         if_neg (by intro h; injection h with _ h2; exact hy (d, n) (by simp) h2.symm)]
 
+/-! ### re-export: the traversal of the store follows the parent pointers of the file -/
+theorem flatMap_congr_map {α β γ δ : Type} (g1 : α → γ) (g2 : β → γ) (F : α → List δ) (G : β → List δ) :
+    ∀ (l1 : List α) (l2 : List β), l1.map g1 = l2.map g2 →
+      (∀ a ∈ l1, ∀ b ∈ l2, g1 a = g2 b → F a = G b) → l1.flatMap F = l2.flatMap G := by
+  intro l1
+  induction l1 with
+  | nil => intro l2 h _; cases l2 with
+    | nil => rfl
+    | cons _ _ => simp at h
+  | cons a l1 ih =>
+    intro l2 h hfg
+    cases l2 with
+    | nil => simp at h
+    | cons b l2 =>
+      simp only [List.map_cons, List.cons.injEq] at h
+      simp only [List.flatMap_cons]
+      rw [hfg a (by simp) b (by simp) h.1, ih l2 h.2 (fun a' ha b' hb => hfg a' (by simp [ha]) b' (by simp [hb]))]
+
+theorem filter_up_shape (es : List Edge) (p : Bytes) :
+    (es.filter (fun e => e.up == p)).map shape = (es.map shape).filter (fun s => s.1 == p) := by
+  rw [List.filter_map]
+  rfl
+
+theorem filter_parent_shape (f : Flat) (p : Bytes) :
+    (f.filter (fun x => x.2.parent == p)).map shapeOf = (f.map shapeOf).filter (fun s => s.1 == p) := by
+  rw [List.filter_map]
+  rfl
+
 end Siot.Export
